@@ -1,0 +1,211 @@
+// Verification hooks for `GenericConnection` (cargo feature `verif-hooks`, off by default).
+//
+// Everything in this file is read-only with respect to the connection: `verif_state()` returns a
+// canonical plain-data snapshot of *every* field (unordered collections sorted, ordered ones kept
+// in order), and `Clone` copies the object field by field. Nothing here changes behaviour.
+use alloc::{string::String, vec::Vec};
+use core::marker::PhantomData;
+
+use super::{ConnectionStatus, GenericConnection};
+use crate::mqtt::connection::packet_builder::VerifPacketBuilderState;
+use crate::mqtt::connection::role::RoleType;
+use crate::mqtt::connection::version::Version;
+use crate::mqtt::packet::VerifTopicAliasSendState;
+use crate::mqtt::packet::IsPacketId;
+use crate::mqtt::prelude::GenericPacketTrait;
+
+/// Canonical snapshot of all fields of a `GenericConnection` (packet ids widened to `u64`).
+#[derive(Debug, Clone, PartialEq, Eq, Hash)]
+pub struct VerifState {
+    /// 0 = undetermined, 4 = v3.1.1, 5 = v5.0
+    pub protocol_version: u8,
+    /// free packet id intervals
+    pub pid_free: Vec<(u64, u64)>,
+    pub pid_suback: Vec<u64>,
+    pub pid_unsuback: Vec<u64>,
+    pub pid_puback: Vec<u64>,
+    pub pid_pubrec: Vec<u64>,
+    pub pid_pubcomp: Vec<u64>,
+    pub need_store: bool,
+    /// serialised stored packets, in store order
+    pub store: Vec<Vec<u8>>,
+    pub offline_publish: bool,
+    pub auto_pub_response: bool,
+    pub auto_ping_response: bool,
+    pub auto_map_topic_alias_send: bool,
+    pub auto_replace_topic_alias_send: bool,
+    pub topic_alias_recv: Option<(u16, Vec<(u16, String)>)>,
+    pub topic_alias_send: Option<VerifTopicAliasSendState>,
+    pub publish_send_max: Option<u16>,
+    pub publish_recv_max: Option<u16>,
+    pub publish_send_count: u16,
+    pub publish_recv: Vec<u64>,
+    pub maximum_packet_size_send: u32,
+    pub maximum_packet_size_recv: u32,
+    /// 0 = disconnected, 1 = connecting, 2 = connected
+    pub status: u8,
+    pub pingreq_user_send_interval_ms: Option<u64>,
+    pub pingreq_keep_alive_ms: u64,
+    pub pingreq_server_keep_alive_ms: Option<u64>,
+    pub pingreq_recv_timeout_ms: u64,
+    pub pingresp_recv_timeout_ms: u64,
+    pub qos2_publish_handled: Vec<u64>,
+    pub pingreq_send_set: bool,
+    pub pingreq_recv_set: bool,
+    pub pingresp_recv_set: bool,
+    pub packet_builder: VerifPacketBuilderState,
+    pub is_client: bool,
+}
+
+fn sorted_ids<P: IsPacketId>(set: &crate::mqtt::common::HashSet<P>) -> Vec<u64> {
+    let mut v: Vec<u64> = set.iter().map(|p| p.to_u64().unwrap()).collect();
+    v.sort_unstable();
+    v
+}
+
+impl<Role, PacketIdType> GenericConnection<Role, PacketIdType>
+where
+    Role: RoleType,
+    PacketIdType: IsPacketId,
+{
+    /// Verification hook: canonical snapshot of every field of the connection.
+    pub fn verif_state(&self) -> VerifState {
+        // Exhaustive destructuring: adding a field to the struct breaks this hook at compile time
+        // instead of silently leaving it out of the snapshot.
+        let GenericConnection {
+            _marker: _,
+            protocol_version,
+            pid_man,
+            pid_suback,
+            pid_unsuback,
+            pid_puback,
+            pid_pubrec,
+            pid_pubcomp,
+            need_store,
+            store,
+            offline_publish,
+            auto_pub_response,
+            auto_ping_response,
+            auto_map_topic_alias_send,
+            auto_replace_topic_alias_send,
+            topic_alias_recv,
+            topic_alias_send,
+            publish_send_max,
+            publish_recv_max,
+            publish_send_count,
+            publish_recv,
+            maximum_packet_size_send,
+            maximum_packet_size_recv,
+            status,
+            pingreq_user_send_interval_ms,
+            pingreq_keep_alive_ms,
+            pingreq_server_keep_alive_ms,
+            pingreq_recv_timeout_ms,
+            pingresp_recv_timeout_ms,
+            qos2_publish_handled,
+            pingreq_send_set,
+            pingreq_recv_set,
+            pingresp_recv_set,
+            packet_builder,
+            is_client,
+        } = self;
+        VerifState {
+            protocol_version: match protocol_version {
+                Version::Undetermined => 0,
+                Version::V3_1_1 => 4,
+                Version::V5_0 => 5,
+            },
+            pid_free: pid_man
+                .verif_intervals()
+                .into_iter()
+                .map(|(l, h)| (l.to_u64().unwrap(), h.to_u64().unwrap()))
+                .collect(),
+            pid_suback: sorted_ids(pid_suback),
+            pid_unsuback: sorted_ids(pid_unsuback),
+            pid_puback: sorted_ids(pid_puback),
+            pid_pubrec: sorted_ids(pid_pubrec),
+            pid_pubcomp: sorted_ids(pid_pubcomp),
+            need_store: *need_store,
+            store: store
+                .get_stored()
+                .iter()
+                .map(|p| p.to_continuous_buffer())
+                .collect(),
+            offline_publish: *offline_publish,
+            auto_pub_response: *auto_pub_response,
+            auto_ping_response: *auto_ping_response,
+            auto_map_topic_alias_send: *auto_map_topic_alias_send,
+            auto_replace_topic_alias_send: *auto_replace_topic_alias_send,
+            topic_alias_recv: topic_alias_recv.as_ref().map(|t| t.verif_state()),
+            topic_alias_send: topic_alias_send.as_ref().map(|t| t.verif_state()),
+            publish_send_max: *publish_send_max,
+            publish_recv_max: *publish_recv_max,
+            publish_send_count: *publish_send_count,
+            publish_recv: sorted_ids(publish_recv),
+            maximum_packet_size_send: *maximum_packet_size_send,
+            maximum_packet_size_recv: *maximum_packet_size_recv,
+            status: match status {
+                ConnectionStatus::Disconnected => 0,
+                ConnectionStatus::Connecting => 1,
+                ConnectionStatus::Connected => 2,
+            },
+            pingreq_user_send_interval_ms: *pingreq_user_send_interval_ms,
+            pingreq_keep_alive_ms: *pingreq_keep_alive_ms,
+            pingreq_server_keep_alive_ms: *pingreq_server_keep_alive_ms,
+            pingreq_recv_timeout_ms: *pingreq_recv_timeout_ms,
+            pingresp_recv_timeout_ms: *pingresp_recv_timeout_ms,
+            qos2_publish_handled: sorted_ids(qos2_publish_handled),
+            pingreq_send_set: *pingreq_send_set,
+            pingreq_recv_set: *pingreq_recv_set,
+            pingresp_recv_set: *pingresp_recv_set,
+            packet_builder: packet_builder.verif_state(),
+            is_client: *is_client,
+        }
+    }
+}
+
+impl<Role, PacketIdType> Clone for GenericConnection<Role, PacketIdType>
+where
+    Role: RoleType,
+    PacketIdType: IsPacketId,
+{
+    fn clone(&self) -> Self {
+        Self {
+            _marker: PhantomData,
+            protocol_version: self.protocol_version,
+            pid_man: self.pid_man.clone(),
+            pid_suback: self.pid_suback.clone(),
+            pid_unsuback: self.pid_unsuback.clone(),
+            pid_puback: self.pid_puback.clone(),
+            pid_pubrec: self.pid_pubrec.clone(),
+            pid_pubcomp: self.pid_pubcomp.clone(),
+            need_store: self.need_store,
+            store: self.store.clone(),
+            offline_publish: self.offline_publish,
+            auto_pub_response: self.auto_pub_response,
+            auto_ping_response: self.auto_ping_response,
+            auto_map_topic_alias_send: self.auto_map_topic_alias_send,
+            auto_replace_topic_alias_send: self.auto_replace_topic_alias_send,
+            topic_alias_recv: self.topic_alias_recv.clone(),
+            topic_alias_send: self.topic_alias_send.clone(),
+            publish_send_max: self.publish_send_max,
+            publish_recv_max: self.publish_recv_max,
+            publish_send_count: self.publish_send_count,
+            publish_recv: self.publish_recv.clone(),
+            maximum_packet_size_send: self.maximum_packet_size_send,
+            maximum_packet_size_recv: self.maximum_packet_size_recv,
+            status: self.status,
+            pingreq_user_send_interval_ms: self.pingreq_user_send_interval_ms,
+            pingreq_keep_alive_ms: self.pingreq_keep_alive_ms,
+            pingreq_server_keep_alive_ms: self.pingreq_server_keep_alive_ms,
+            pingreq_recv_timeout_ms: self.pingreq_recv_timeout_ms,
+            pingresp_recv_timeout_ms: self.pingresp_recv_timeout_ms,
+            qos2_publish_handled: self.qos2_publish_handled.clone(),
+            pingreq_send_set: self.pingreq_send_set,
+            pingreq_recv_set: self.pingreq_recv_set,
+            pingresp_recv_set: self.pingresp_recv_set,
+            packet_builder: self.packet_builder.clone(),
+            is_client: self.is_client,
+        }
+    }
+}
